@@ -81,9 +81,6 @@ def splice(caller, bb, helper):
     t = caller.blocks[bb]["t"]
     L, K = len(caller.locals), len(caller.blocks)
     caller.locals.extend(copy.deepcopy(helper.locals))
-    for a in caller.locals[L:]:
-        a.pop("name", None)
-        a.pop("user", None)
     args = t.get("args", [])
     pre = []
     for i, a in enumerate(args):
@@ -273,6 +270,81 @@ def partition(body, cap=None):
                 p = s["rv"].get("p")
                 if isinstance(p, list) and len(p) == 1:
                     discr[s["d"][0]] = (p[0], {v: n for v, n in s["rv"].get("variants", [])})
+    # only locals whose variant is tested later matter: discriminated locals and what flows into them
+    interesting = {v[0] for v in discr.values()}
+    changed = True
+    while changed:
+        changed = False
+        for bl in body.blocks:
+            for s in bl["s"]:
+                if s.get("k") == "assign" and len(s["d"]) == 1 and s["d"][0] in interesting and s["rv"].get("k") == "use":
+                    y = _whole_local(s["rv"].get("o"))
+                    if y is not None and y not in interesting:
+                        interesting.add(y)
+                        changed = True
+            t = bl.get("t") or {}
+            if t.get("k") == "call" and isinstance(t.get("dest"), list) and len(t["dest"]) == 1 and t["dest"][0] in interesting and t.get("args"):
+                y = _whole_local(t["args"][0])
+                if y is not None and y not in interesting:
+                    interesting.add(y)
+                    changed = True
+
+    # backward liveness of the interesting locals: a variant recorded for a local that is overwritten before it is read
+    # again (e.g. the helper's result of the previous loop iteration) must not split the paths
+    def uses_defs(bl):
+        use, dfn = set(), set()
+
+        def note_use(o):
+            if isinstance(o, dict):
+                for k_, v in o.items():
+                    if k_ in ("c", "m", "p") and isinstance(v, list) and v and isinstance(v[0], int):
+                        if v[0] not in dfn:
+                            use.add(v[0])
+                    else:
+                        note_use(v)
+            elif isinstance(o, list):
+                for v in o:
+                    note_use(v)
+        for s_ in bl["s"]:
+            if s_.get("k") == "assign":
+                note_use(s_["rv"])
+                d = s_["d"]
+                if len(d) == 1:
+                    dfn.add(d[0])
+                elif d[0] not in dfn:
+                    use.add(d[0])
+        t_ = bl.get("t") or {}
+        if t_.get("k") != "drop":  # dropping a value does not look at its variant
+            note_use({k_: v for k_, v in t_.items() if k_ not in ("dest",)})
+        d = t_.get("dest")
+        if isinstance(d, list) and d:
+            if len(d) == 1:
+                dfn.add(d[0])  # (on the unwind edge the old value would survive; cleanup paths do not test variants)
+            elif d[0] not in dfn:
+                use.add(d[0])
+        return use & interesting, dfn & interesting
+    ud = [uses_defs(bl) for bl in body.blocks]
+    succs = []
+    for bl in body.blocks:
+        t_ = bl.get("t") or {}
+        ss = [t_.get(f) for f in ("t", "u", "drop", "otherwise") if isinstance(t_.get(f), int)]
+        ss += [b_ for _, b_ in t_.get("targets", [])] if t_.get("k") == "switch" else []
+        succs.append(ss)
+    live_in = [set() for _ in body.blocks]
+    changed = True
+    while changed:
+        changed = False
+        for i in range(len(body.blocks) - 1, -1, -1):
+            out = set()
+            for s_ in succs[i]:
+                out |= live_in[s_]
+            new = ud[i][0] | (out - ud[i][1])
+            if new != live_in[i]:
+                live_in[i] = new
+                changed = True
+
+    def restrict(st, at):
+        return {k: v for k, v in st.items() if k in interesting and k in live_in[at]}
     start = (0, ())
     ids = {start: 0}
     order = [start]
@@ -317,7 +389,7 @@ def partition(body, cap=None):
             if not (known and known in explicit):
                 edges.append((("sw", "otherwise"), t["otherwise"], st))
         for lab, sb, s2 in edges:
-            key = (sb, tuple(sorted(s2.items())))
+            key = (sb, tuple(sorted(restrict(s2, sb).items())))
             if key not in ids:
                 ids[key] = len(order)
                 order.append(key)
@@ -325,12 +397,41 @@ def partition(body, cap=None):
                 if len(order) > cap:
                     return False
             out_edges.setdefault(node, {})[lab] = ids[key]
-    if len(order) == nb and all(k[1] == () or True for k in order) and len({k[0] for k in order}) == len(order):
-        # nothing was split: keep the body as it is (block numbering unchanged)
-        return False
-    dead_end = len(order)
-    new_blocks = []
+    if os.environ.get("VERIF_DEBUG_PARTITION"):
+        want = int(os.environ["VERIF_DEBUG_PARTITION"])
+        for k in order:
+            if k[0] == want:
+                print("PART", body.id, k)
+    # merge back the clones that cannot be told apart (same original block, same successors up to merging): only the
+    # blocks between a path split and the test that prunes an edge stay duplicated (Moore-style partition refinement)
+    cls = {node: node[0] for node in order}
+    while True:
+        sig = {}
+        for node in order:
+            oe = out_edges.get(node, {})
+            sig[node] = (cls[node], tuple(sorted((repr(lab), cls[order[tid]]) for lab, tid in oe.items())))
+        ids2 = {}
+        newcls = {}
+        for node in order:
+            newcls[node] = ids2.setdefault(sig[node], len(ids2))
+        if len(ids2) == len(set(cls.values())):
+            cls = newcls
+            break
+        cls = newcls
+    reps = {}
     for node in order:
+        reps.setdefault(cls[node], node)
+    if len(reps) == nb and all(cls[n] == cls[reps[cls[n]]] for n in order) and len({n[0] for n in reps.values()}) == nb and not any(
+            len(out_edges.get(n, {})) < len(body.succ(n[0], unwind=True)) for n in reps.values()):
+        return False  # everything merged back and nothing was pruned: the body is unchanged
+    # number the merged blocks: entry first, then in order of first appearance
+    cid = {}
+    for node in order:
+        if cls[node] not in cid:
+            cid[cls[node]] = len(cid)
+    dead_end = len(cid)
+    new_blocks = [None] * len(cid)
+    for c, node in reps.items():
         b, _ = node
         bl = body.blocks[b]
         nbk = {"s": bl["s"], "orig": bl.get("orig", b)}
@@ -339,7 +440,7 @@ def partition(body, cap=None):
         t = bl.get("t")
         if t:
             t2 = dict(t)
-            oe = out_edges.get(node, {})
+            oe = {lab: cid[cls[order[tid]]] for lab, tid in out_edges.get(node, {}).items()}
             for fld in ("t", "u", "drop"):
                 if t.get(fld) is not None:
                     t2[fld] = oe.get(fld, dead_end) if isinstance(t.get(fld), int) else t.get(fld)
@@ -347,7 +448,7 @@ def partition(body, cap=None):
                 t2["targets"] = [[v, oe[("sw", v)]] for v, _ in t["targets"] if ("sw", v) in oe]
                 t2["otherwise"] = oe.get(("sw", "otherwise"), dead_end)
             nbk["t"] = t2
-        new_blocks.append(nbk)
+        new_blocks[cid[c]] = nbk
     new_blocks.append({"s": [], "t": {"k": "unreachable", "line": body.span}, "orig": -1})
     body.blocks = new_blocks
     body._preds = None
